@@ -319,6 +319,9 @@ func (h *Hub) prepareConnectionInitation(ski string, counter int, entry *api.Mdn
 	// check if the current counter is still the same, otherwise this counter is irrelevant
 	currentCounter, exists := h.getCurrentConnectionAttemptCounter(ski)
 	if !exists || currentCounter != counter {
+		// this attempt blocked newer attempts while it was waiting, so make sure
+		// a still missing connection gets a new attempt
+		h.checkAutoReannounce()
 		return
 	}
 
